@@ -132,10 +132,10 @@ func execC08(c c08Case) Outcome {
 		}
 	} else {
 		if sw, err = d.openWriter(d.sshdPipe); err != nil {
-			return fail("%v; stderr: %s", err, tailStr(d.stderrText(), 800))
+			panic(&infraError{err.Error() + "; stderr: " + tailStr(d.stderrText(), 800)})
 		}
 		if aw, err = d.openWriter(d.audPipe); err != nil {
-			return fail("%v; stderr: %s", err, tailStr(d.stderrText(), 800))
+			panic(&infraError{err.Error() + "; stderr: " + tailStr(d.stderrText(), 800)})
 		}
 		// traffic prefix: complete, correlated sessions
 		if c.Cause != "write_error" {
@@ -219,13 +219,13 @@ func execC08Partial(c c08Case, o daemonOpts) Outcome {
 	var err error
 	if c.Connect == "sshd_only" {
 		if sw, err = d.openWriter(d.sshdPipe); err != nil {
-			return fail("%v", err)
+			panic(&infraError{err.Error()})
 		}
 		defer sw.Close()
 	}
 	if c.Connect == "audit_only" {
 		if aw, err = d.openWriter(d.audPipe); err != nil {
-			return fail("%v", err)
+			panic(&infraError{err.Error()})
 		}
 		defer aw.Close()
 	}
